@@ -114,6 +114,28 @@ func worlds(n, m int) []string {
 		}
 	}
 	rec("", 0)
+	if n >= 4 {
+		// sessions are interchangeable as well: keep one world per multiset of block sizes
+		seen := map[string]bool{}
+		var o2 []string
+		for _, w := range out {
+			cnt := map[byte]int{}
+			for i := 0; i < len(w); i++ {
+				cnt[w[i]]++
+			}
+			var sizes []int
+			for _, c := range cnt {
+				sizes = append(sizes, c)
+			}
+			sort.Sort(sort.Reverse(sort.IntSlice(sizes)))
+			k := fmt.Sprint(sizes)
+			if !seen[k] {
+				seen[k] = true
+				o2 = append(o2, w)
+			}
+		}
+		out = o2
+	}
 	return out
 }
 
